@@ -228,6 +228,7 @@ def check(ctx, report):
     spf_network_composer(ctx, report)
     spf_term_spellings(ctx, report)
     media_type_case(ctx, report)
+    token_enums_case(ctx, report, spec)
     report.floor('C18.R1', 24, 'named components')
 
 
@@ -969,3 +970,41 @@ def media_type_case(ctx, report, RULE='C18.R10'):
     for k, v in sorted(problems.items()):
         report.add(RULE, '%s@media-type[%s]' % (f.construct, k), v)
     report.floor(RULE, 6, 'media type spellings')
+
+
+# ---- R11: enumerated tokens -----------------------------------------------------------------------------------------------------
+
+def token_enums_case(ctx, report, spec, RULE='C18.R11'):
+    """the string enumerations whose tokens the governing specification matches case-insensitively (table in sa/specs/text.json,
+    one citation each): the class's own ``_code_eq`` - found through its MRO and evaluated - accepts the token in another case"""
+    from ..miniexec import Evaluator, Raised, Unsupported, class_call_hook
+    report.rule(RULE, 'enumerated tokens the specification matches case-insensitively are matched case-insensitively')
+    table = spec.get('case_insensitive_string_enums', {})
+    for name, why in sorted(table.items()):
+        c = ctx.model.try_cls(name)
+        if c is None:
+            report.error('%s: the enumeration %s vanished' % (RULE, name))
+            continue
+        f = c.resolve('_code_eq')
+        if f is None:
+            report.add(RULE, '%s@matcher' % c.construct, '%s has no _code_eq in its class chain (%s)' % (name, why))
+            continue
+        report.count(RULE)
+        report.touch(f)
+        hook = class_call_hook(c, None, ctx.model)
+        params = [a.arg for a in f.node.args.args]
+        try:
+            verdicts = []
+            for a, b in (('self', 'SELF'), ('block', 'Block'), ("'none'", "'NONE'")):
+                verdicts.append(bool(Evaluator(dict(zip(params, ['cls', a, b])), hook, hook.name_hook_for(f.module, None)).function(f.node)))
+            same = bool(Evaluator(dict(zip(params, ['cls', 'self', 'self'])), hook, hook.name_hook_for(f.module, None)).function(f.node))
+            other = bool(Evaluator(dict(zip(params, ['cls', 'self', 'sel'])), hook, hook.name_hook_for(f.module, None)).function(f.node))
+        except (Unsupported, Raised) as e:
+            report.add(RULE, '%s@matcher' % c.construct, '_code_eq of %s left the subset the evaluation understands: %s' % (name, e))
+            continue
+        if not all(verdicts):
+            report.add(RULE, '%s@matcher' % c.construct, 'the tokens of %s are matched case-sensitively (%s): a spelling in another letter case is refused or read as something else; %s' % (
+                name, f.qualname if hasattr(f, 'qualname') else f.name, why))
+        if not same or other:
+            report.add(RULE, '%s@matcher[exact]' % c.construct, '_code_eq of %s does not tell equal tokens from different ones' % name)
+    report.floor(RULE, 10, 'case-insensitive token enumerations')
